@@ -474,26 +474,45 @@ def rule_F5(ctx: Ctx) -> None:
                       "narrower storage silently wraps coordinates / lengths")
 
 
-def _meta_world_reach(fn: FuncInfo, target_calls: list[ast.Call]) -> tuple[bool, list[str]]:
-    """can a call in `target_calls` execute in the world {generation_metadata_collected is None,
-    some/first maze's generation_meta is None}?  guard tests are classified; unknown tests take both branches"""
+def _meta_world_reach(fn: FuncInfo, target_calls: list[ast.Call], world: str = "none") -> tuple[bool, list[str]]:
+    """can a call in `target_calls` execute in the given world?
+      "none":  nothing collected, no maze carries generation_meta (strip_generation_meta / collect(clear_in_mazes) produce it)
+      "mixed": nothing collected, the first maze carries generation_meta but a later one does not (fresh mazes followed by mazes
+               read back from a minimal-format file)
+    guard tests are classified; unknown tests take both branches"""
     g = build_cfg(fn.node)
 
+    def per_maze(t: ast.AST, has_meta: bool) -> bool | None:
+        "value of a test about one maze (the element variable of any/all) when that maze has / lacks metadata"
+        if isinstance(t, ast.UnaryOp) and isinstance(t.op, ast.Not):
+            v = per_maze(t.operand, has_meta)
+            return None if v is None else not v
+        if isinstance(t, ast.Compare) and len(t.ops) == 1 and isinstance(t.comparators[0], ast.Constant) and t.comparators[0].value is None \
+                and X.U(t.left).endswith(".generation_meta"):
+            return isinstance(t.ops[0], ast.Is) != has_meta
+        return None
+
     def world_value(t: ast.AST) -> bool | None:
-        s = X.U(t)
         if isinstance(t, ast.UnaryOp) and isinstance(t.op, ast.Not):
             v = world_value(t.operand)
             return None if v is None else not v
         if isinstance(t, ast.Compare) and len(t.ops) == 1 and isinstance(t.comparators[0], ast.Constant) and t.comparators[0].value is None:
             left = X.U(t.left)
-            if left.endswith("generation_metadata_collected") or left.endswith(".generation_meta"):
+            if left.endswith("generation_metadata_collected"):
                 return isinstance(t.ops[0], ast.Is)
+            if left.endswith(".generation_meta"):
+                if world == "none":
+                    return isinstance(t.ops[0], ast.Is)
+                base = t.left.value if isinstance(t.left, ast.Attribute) else None
+                first = isinstance(base, ast.Subscript) and isinstance(base.slice, ast.Constant) and base.slice.value == 0
+                return (not isinstance(t.ops[0], ast.Is)) if first else None  # the first maze has metadata in the mixed world
             return None
         if isinstance(t, ast.Call) and dotted_of(t.func) in ("any", "all") and t.args and isinstance(t.args[0], (ast.GeneratorExp, ast.ListComp)):
-            inner = world_value(t.args[0].elt)
-            if inner is None:
+            lacks, has = per_maze(t.args[0].elt, False), per_maze(t.args[0].elt, True)
+            if lacks is None or has is None:
                 return None
-            return inner  # any(missing) -> True, all(present) -> False in the all-missing world
+            vals = [lacks] if world == "none" else [lacks, has]
+            return any(vals) if dotted_of(t.func) == "any" else all(vals)
         if isinstance(t, ast.BoolOp):
             vals = [world_value(v) for v in t.values]
             if isinstance(t.op, ast.And):
@@ -566,10 +585,12 @@ def rule_F6(ctx: Ctx) -> None:
         if not calls_to_demanding:
             continue
         hit, guards = _meta_world_reach(f, calls_to_demanding)
+        hit_m, guards_m = _meta_world_reach(f, calls_to_demanding, world="mixed")
         slot = {"calls": [X.U(c)[:80] for c in calls_to_demanding], "guards_evaluated_in_no_metadata_world": guards,
-                "reachable_without_metadata": hit, "asserting_callee": sorted(demanding), "none_storers": storers}
-        ctx.judge(f, (not hit) if storers else True, slot, exp,
-                  "serializing a dataset whose per-maze metadata was stripped reaches an assertion on that metadata")
+                "reachable_without_metadata": hit, "guards_evaluated_in_mixed_world": guards_m, "reachable_with_mixed_metadata": hit_m,
+                "asserting_callee": sorted(demanding), "none_storers": storers}
+        ctx.judge(f, (not hit and not hit_m) if storers else True, slot, exp + "; the guard must hold for every maze, not only the first",
+                  "serializing a dataset whose per-maze metadata was stripped (from all mazes, or from some but not the first) reaches code that demands that metadata")
 
 
 def rule_F7(ctx: Ctx) -> None:
